@@ -19,6 +19,8 @@ type OrgCase struct {
 	P    Prog  `json:"p"`    // 16-bit program; P.Org is the first origin
 	Org2 int64 `json:"org2"` // the second origin (-1 = no ORG statement)
 	K    int   `json:"k"`    // when > 0: a final "RESB (origin+K)-$" before the table
+	// S, when set, replaces all of the above: the instruction-stream family (see checkC16Stream)
+	S *OrgStream `json:"s,omitempty"`
 }
 
 const orgPlaceholder = "@ORGPLUSK@"
@@ -53,6 +55,9 @@ func immLenAfterModRM(b []byte, dataSize int) int {
 }
 
 func checkC16(c OrgCase) Verdict {
+	if c.S != nil {
+		return checkC16Stream(c.S)
+	}
 	s1, s2 := c.sourceAt(c.P.Org), c.sourceAt(c.Org2)
 	v := Verdict{Key: s1 + "\x00" + s2}
 	o1, o2 := c.P.Org, c.Org2
@@ -205,7 +210,6 @@ func checkC16(c OrgCase) Verdict {
 		}
 		return fail("other|"+where, "a byte that embeds no absolute value changes with the origin: offset %d is % x at %#x and % x at %#x", at, clip(r1.Out, at), o1, clip(r2.Out, at), o2)
 	}
-	_ = binary.LittleEndian
 	v.NonTrivial = nbranch >= 1 && nabs >= 1 && delta != 0
 	v.Class = fmt.Sprintf("delta=%v", delta != 0)
 	v.Sample = map[string]any{"source": s1, "origins": []int64{c.P.Org, c.Org2}}
@@ -214,8 +218,11 @@ func checkC16(c OrgCase) Verdict {
 
 var propC16 = &Prop[OrgCase]{
 	ID:   "C16",
-	Rule: "16-bit programs from the C03 generator (label-target branches, MOV reg,label, DW/DD label, DW $, LGDT [label], ALIGNB n<=16, RESB (origin+K)-$, trailing DD table) assembled at two origins from {none, 0, 0x100, 0x7c00, 0xc200, 0x8000, 0xfff0}; oracle: same acceptance, same length, same marker offsets, every embedded absolute value differs by exactly the delta modulo its width (data fields read raw, instruction fields located by decoding), all other bytes - in particular every branch displacement - identical; no ORG = ORG 0; non-trivial = at least one branch, one absolute reference and a non-zero delta; distinct by the pair of sources",
+	Rule: "16-bit programs from the C03 generator (label-target branches, MOV reg,label, DW/DD label, DW $, LGDT [label], ALIGNB n<=16, RESB (origin+K)-$, trailing DD table) assembled at two origins from {none, 0, 0x100, 0x7c00, 0xc200, 0x8000, 0xfff0}; oracle: same acceptance, same length, same marker offsets, every embedded absolute value differs by exactly the delta modulo its width (data fields read raw, instruction fields located by decoding), all other bytes - in particular every branch displacement - identical; no ORG = ORG 0; non-trivial = at least one branch, one absolute reference and a non-zero delta; distinct by the pair of sources; one case in three is an instruction-stream program instead (16- or 32-bit mode, origins up to 0x280000, instructions only: fillers, JMP/CALL/Jcc to labels and to numeric addresses near either origin, closed by a DD table of the labels): both outputs are decoded side by side (x86asm) and must have the same length and instruction boundaries, identical filler bytes, identical displacements for label targets, displacements that differ by minus the delta for numeric targets, table entries that differ by the delta",
 	Gen: func(t *rapid.T) OrgCase {
+		if rapid.IntRange(0, 2).Draw(t, "family") == 0 {
+			return OrgCase{S: genOrgStream(t)}
+		}
 		o1 := rapid.SampledFrom(orgSet).Draw(t, "org1")
 		o2 := rapid.SampledFrom(orgSet).Draw(t, "org2")
 		p := genLabelProg(t, rapid.SampledFrom([]int{0, 16}).Draw(t, "mode"), o1, false)
@@ -239,3 +246,170 @@ var propC16 = &Prop[OrgCase]{
 }
 
 func TestC16(t *testing.T) { Run(t, propC16) }
+
+// ---------------------------------------------------------------------------
+// C16, instruction-stream family: programs made of instructions only (16- or 32-bit mode, origins up to
+// 0x280000), with branches to labels and to numeric addresses, closed by a DD table of the labels. The two
+// outputs are decoded side by side.
+
+type OrgStream struct {
+	Mode  int      `json:"mode"` // 16 or 32
+	Lines []string `json:"lines"`
+	// Kinds[i]: "f" filler instruction, "l" label definition (no bytes), "b" branch to a label, "n" branch to a numeric address
+	Kinds   []string `json:"kinds"`
+	NLabels int      `json:"nlabels"`
+	O1      int64    `json:"o1"`
+	O2      int64    `json:"o2"`
+}
+
+func (s *OrgStream) source(org int64) string {
+	var sb strings.Builder
+	fmt.Fprintf(&sb, "[BITS %d]\n\tORG 0x%x\n", s.Mode, org)
+	for i, l := range s.Lines {
+		if s.Kinds[i] == "l" {
+			sb.WriteString(l + ":\n")
+		} else {
+			sb.WriteString("\t" + l + "\n")
+		}
+	}
+	for i := 0; i < s.NLabels; i++ {
+		fmt.Fprintf(&sb, "\tDD zs%d\n", i)
+	}
+	return sb.String()
+}
+
+func checkC16Stream(s *OrgStream) Verdict {
+	s1, s2 := s.source(s.O1), s.source(s.O2)
+	v := Verdict{Key: s1 + "\x00" + s2}
+	delta := s.O2 - s.O1
+	r1, r2 := asm.Assemble(s1), asm.Assemble(s2)
+	hdr := func(o int64) string { return fmt.Sprintf("[BITS %d]\n\tORG 0x%x\n", s.Mode, o) }
+	d1, cls1 := diagnosedC05(r1, asm.Baseline(hdr(s.O1)))
+	d2, cls2 := diagnosedC05(r2, asm.Baseline(hdr(s.O2)))
+	if d1 && d2 {
+		v.Skip = "diagnosed: " + cls1
+		return v
+	}
+	fail := func(kind, f string, a ...any) Verdict {
+		v.Fail = fmt.Sprintf(f, a...) + fmt.Sprintf("\n--- source at origin %#x ---\n%s--- output there ---\n% x\n--- output at origin %#x ---\n% x", s.O1, s1, head(r1.Out, 120), s.O2, head(r2.Out, 120))
+		v.Sig = "C16|stream|" + kind
+		return v
+	}
+	if d1 != d2 {
+		return fail("acceptance", "accepted at one origin, diagnosed at the other (%s%s)", cls1, cls2)
+	}
+	a, b := r1.Out, r2.Out
+	if len(a) != len(b) {
+		return fail("length", "output length changes with the origin: %d bytes at %#x, %d bytes at %#x", len(a), s.O1, len(b), s.O2)
+	}
+	code := len(a) - 4*s.NLabels
+	if code < 0 {
+		return fail("length", "output shorter than its closing table")
+	}
+	mask := uint64(1)<<uint(s.Mode) - 1
+	off, nb, nn := 0, 0, 0
+	for i, l := range s.Lines {
+		if s.Kinds[i] == "l" {
+			continue
+		}
+		if off >= code {
+			return fail("decode", "bytes end before %q", l)
+		}
+		ia, e1 := x86asm.Decode(a[off:code], s.Mode)
+		ib, e2 := x86asm.Decode(b[off:code], s.Mode)
+		if e1 != nil || e2 != nil || ia.Len != ib.Len || ia.Op != ib.Op {
+			return fail("decode|"+s.Kinds[i], "%q at offset %d decodes differently at the two origins (% x / % x)", l, off, clip(a, off), clip(b, off))
+		}
+		switch s.Kinds[i] {
+		case "f":
+			if !bytes.Equal(a[off:off+ia.Len], b[off:off+ia.Len]) {
+				return fail("other", "%q embeds no address, yet its bytes change with the origin (% x / % x)", l, a[off:off+ia.Len], b[off:off+ia.Len])
+			}
+		case "b", "n":
+			ra, ok1 := ia.Args[0].(x86asm.Rel)
+			rb, ok2 := ib.Args[0].(x86asm.Rel)
+			if !ok1 || !ok2 {
+				return fail("decode|"+s.Kinds[i], "%q does not decode as a relative branch", l)
+			}
+			if s.Kinds[i] == "b" {
+				nb++
+				if ra != rb {
+					return fail("branch|label", "%q: displacement %d at origin %#x, %d at origin %#x", l, ra, s.O1, rb, s.O2)
+				}
+			} else {
+				nn++
+				if (uint64(int64(rb))-uint64(int64(ra)))&mask != uint64(-delta)&mask {
+					return fail("branch|numeric", "%q: the target is fixed, so the displacement must change by minus the difference of the origins (%#x): it is %d at %#x and %d at %#x", l, delta, ra, s.O1, rb, s.O2)
+				}
+			}
+		}
+		off += ia.Len
+	}
+	if off != code {
+		return fail("length", "%d bytes of code were decoded for the statements, %d were emitted", off, code)
+	}
+	for k := 0; k < s.NLabels; k++ {
+		x := binary.LittleEndian.Uint32(a[code+4*k:])
+		y := binary.LittleEndian.Uint32(b[code+4*k:])
+		if y-x != uint32(delta) {
+			return fail("delta|table", "DD zs%d: %#x at origin %#x and %#x at origin %#x differ by %#x, the origins differ by %#x", k, x, s.O1, y, s.O2, y-x, uint32(delta))
+		}
+	}
+	v.NonTrivial = nb+nn >= 1 && s.NLabels >= 1 && delta != 0
+	v.Class = fmt.Sprintf("stream%d delta=%v numeric=%v", s.Mode, delta != 0, nn > 0)
+	v.Sample = map[string]any{"source": s1, "origins": []int64{s.O1, s.O2}}
+	return v
+}
+
+func genOrgStream(t *rapid.T) *OrgStream {
+	s := &OrgStream{Mode: rapid.SampledFrom([]int{16, 32, 32}).Draw(t, "smode")}
+	orgs := []int64{0, 0x100, 0x7c00, 0xc200, 0xfff0}
+	if s.Mode == 32 {
+		orgs = append(orgs, 0x10000, 0x1fff0, 0x280000, 0x100000)
+	}
+	s.O1 = rapid.SampledFrom(orgs).Draw(t, "so1")
+	s.O2 = rapid.SampledFrom(orgs).Draw(t, "so2")
+	fill16 := []string{"NOP", "MOV AX,1", "ADD BX,CX", "MOV [BX],AL", "PUSH SI", "CLI", "MOV CX,0x1234"}
+	fill32 := []string{"NOP", "MOV EAX,1", "ADD EBX,ECX", "MOV [EBX],AL", "PUSH ESI", "CLI", "MOV ECX,0x12345678", "MOV AX,1"}
+	fill := fill16
+	if s.Mode == 32 {
+		fill = fill32
+	}
+	s.NLabels = rapid.IntRange(1, 4).Draw(t, "snl")
+	n := rapid.IntRange(2, 14).Draw(t, "sn")
+	// label positions
+	pos := map[int][]int{}
+	for k := 0; k < s.NLabels; k++ {
+		p := rapid.IntRange(0, n).Draw(t, "slpos")
+		pos[p] = append(pos[p], k)
+	}
+	ops := []string{"JMP", "CALL", "JE", "JNE", "JB", "JGE", "JMP", "CALL"}
+	for i := 0; i <= n; i++ {
+		for _, k := range pos[i] {
+			s.Lines = append(s.Lines, fmt.Sprintf("zs%d", k))
+			s.Kinds = append(s.Kinds, "l")
+		}
+		if i == n {
+			break
+		}
+		switch rapid.IntRange(0, 3).Draw(t, "skind") {
+		case 0:
+			op := rapid.SampledFrom(ops).Draw(t, "sop")
+			s.Lines = append(s.Lines, fmt.Sprintf("%s zs%d", op, rapid.IntRange(0, s.NLabels-1).Draw(t, "slab")))
+			s.Kinds = append(s.Kinds, "b")
+		case 1:
+			op := rapid.SampledFrom(ops).Draw(t, "sop")
+			base := rapid.SampledFrom([]int64{s.O1, s.O2, 0x8200, 0x280000}).Draw(t, "sbase")
+			if s.Mode == 16 {
+				base &= 0xffff
+			}
+			tgt := base + rapid.SampledFrom([]int64{0, 5, 0x10, 0x40, 0x7f, 0x80, 0x100, 0x1234}).Draw(t, "stoff")
+			s.Lines = append(s.Lines, fmt.Sprintf("%s 0x%x", op, tgt))
+			s.Kinds = append(s.Kinds, "n")
+		default:
+			s.Lines = append(s.Lines, rapid.SampledFrom(fill).Draw(t, "sfill"))
+			s.Kinds = append(s.Kinds, "f")
+		}
+	}
+	return s
+}
